@@ -7,7 +7,10 @@
 //!   memo <expr>                     `Memo::new`
 //!   mount <view>                    `leptos::mount::mount_to_renderer(&root, ..)`
 //!   set <id> <v> | poll <i> | idle | dispose
+//!   setl <sid> <v>                  write every live component-local signal created by `sc <sid> s ..`
+//!                                   (through the handles the harness keeps; disposed ones are skipped)
 //! <expr> prefix tokens: L<n> | R<id> | add e e | mulc <k> e | ite e e e
+//!                       K (key of the enclosing row) | V<j> (state of the j-th enclosing `sc`, innermost = 0)
 //! <view> prefix tokens:
 //!   t <hex>                 static text            u                  `()` (placeholder comment)
 //!   el <tag> <n> <attr>*n <view>                   seq <view> <view>  tuple
@@ -15,6 +18,9 @@
 //!   ei <expr> <view> <view> `move || if c != 0 { Either::Left(a) } else { Either::Right(b) }`
 //!   sh <expr> <view> <view> `<Show when=.. fallback=..>`
 //!   for <expr> <n> <list>*n `<For each=move || lists[sel mod n] key=|k| *k children=|k| <li>{k}</li>>`
+//!   forr <expr> <n> <list>*n <view>  `<For ..>` with rows `<li>{k}{view}</li>`; the row view is constructed inside `children`
+//!   sc <sid> m <expr> <view>  a component body: `let m = Memo::new(move |_| expr); view`   (created where the view is CONSTRUCTED:
+//!   sc <sid> s <init> <view>                     `let l = RwSignal::new(init); view`         in the effect run / row / mount closure)
 //!   susp <expr> <view>      `<Suspense fallback="wait">` over an `AsyncDerived` of the expression (resolves after one more poll), children `(value, view)`   (implementation only)
 //!   errb <expr> <view>      `<ErrorBoundary>` over `move || if e != 0 { Err } else { Ok(view) }` (implementation only)
 //! <attr>: as <name> <hex> | ad <name> <expr> | ac <name> <expr> | ay <name> <expr>
@@ -29,6 +35,16 @@ pub enum Expr {
     Add(Box<Expr>, Box<Expr>),
     Mulc(i64, Box<Expr>),
     Ite(Box<Expr>, Box<Expr>, Box<Expr>),
+    /// key of the enclosing row
+    Key,
+    /// state of the j-th enclosing scope (innermost first)
+    Loc(usize),
+}
+
+#[derive(Clone, Debug, PartialEq)]
+pub enum LDef {
+    Memo(Expr),
+    Sig(i64),
 }
 
 #[derive(Clone, Debug, PartialEq)]
@@ -49,6 +65,10 @@ pub enum ViewD {
     Either(Expr, Box<ViewD>, Box<ViewD>),
     Show(Expr, Box<ViewD>, Box<ViewD>),
     For(Expr, Vec<Vec<u32>>),
+    /// `<For>` with rows `<li>{k}{row}</li>`
+    ForR(Expr, Vec<Vec<u32>>, Box<ViewD>),
+    /// a component body that creates state of its own
+    Scope(u32, LDef, Box<ViewD>),
     Susp(Expr, Box<ViewD>),
     Errb(Expr, Box<ViewD>),
 }
@@ -99,6 +119,8 @@ pub fn parse_expr(t: &mut Toks) -> Option<Expr> {
             Expr::Mulc(k, Box::new(parse_expr(t)?))
         }
         "ite" => Expr::Ite(Box::new(parse_expr(t)?), Box::new(parse_expr(t)?), Box::new(parse_expr(t)?)),
+        "K" => Expr::Key,
+        _ if tok.starts_with('V') => Expr::Loc(tok[1..].parse().ok()?),
         _ if tok.starts_with('L') => Expr::Lit(tok[1..].parse().ok()?),
         _ if tok.starts_with('R') => Expr::Rd(tok[1..].parse().ok()?),
         _ => return None,
@@ -112,6 +134,8 @@ pub fn show_expr(e: &Expr) -> String {
         Expr::Add(a, b) => format!("add {} {}", show_expr(a), show_expr(b)),
         Expr::Mulc(k, a) => format!("mulc {k} {}", show_expr(a)),
         Expr::Ite(c, t, e) => format!("ite {} {} {}", show_expr(c), show_expr(t), show_expr(e)),
+        Expr::Key => "K".into(),
+        Expr::Loc(j) => format!("V{j}"),
     }
 }
 
@@ -125,6 +149,37 @@ fn parse_attr(t: &mut Toks) -> Option<AttrD> {
         "ay" => AttrD::Sty(intern(STY_NAMES, name)?, parse_expr(t)?),
         _ => return None,
     })
+}
+
+fn parse_lists(t: &mut Toks) -> Option<Vec<Vec<u32>>> {
+    let n: usize = t.next()?.parse().ok()?;
+    if n == 0 || n > 16 {
+        return None;
+    }
+    let mut lists = vec![];
+    for _ in 0..n {
+        let l = t.next()?;
+        let mut ks = vec![];
+        if l != "-" {
+            for k in l.split(',') {
+                let k: u32 = k.parse().ok()?;
+                if ks.contains(&k) {
+                    return None;
+                }
+                ks.push(k);
+            }
+        }
+        lists.push(ks);
+    }
+    Some(lists)
+}
+
+fn show_lists(lists: &[Vec<u32>]) -> String {
+    let ls: Vec<String> = lists
+        .iter()
+        .map(|l| if l.is_empty() { "-".into() } else { l.iter().map(|k| k.to_string()).collect::<Vec<_>>().join(",") })
+        .collect();
+    format!("{} {}", lists.len(), ls.join(" "))
 }
 
 pub fn parse_view(t: &mut Toks) -> Option<ViewD> {
@@ -150,26 +205,21 @@ pub fn parse_view(t: &mut Toks) -> Option<ViewD> {
         "sh" => ViewD::Show(parse_expr(t)?, Box::new(parse_view(t)?), Box::new(parse_view(t)?)),
         "for" => {
             let sel = parse_expr(t)?;
-            let n: usize = t.next()?.parse().ok()?;
-            if n == 0 || n > 16 {
-                return None;
-            }
-            let mut lists = vec![];
-            for _ in 0..n {
-                let l = t.next()?;
-                let mut ks = vec![];
-                if l != "-" {
-                    for k in l.split(',') {
-                        let k: u32 = k.parse().ok()?;
-                        if ks.contains(&k) {
-                            return None;
-                        }
-                        ks.push(k);
-                    }
-                }
-                lists.push(ks);
-            }
-            ViewD::For(sel, lists)
+            ViewD::For(sel, parse_lists(t)?)
+        }
+        "forr" => {
+            let sel = parse_expr(t)?;
+            let lists = parse_lists(t)?;
+            ViewD::ForR(sel, lists, Box::new(parse_view(t)?))
+        }
+        "sc" => {
+            let sid: u32 = t.next()?.parse().ok()?;
+            let d = match t.next()? {
+                "m" => LDef::Memo(parse_expr(t)?),
+                "s" => LDef::Sig(t.next()?.parse().ok()?),
+                _ => return None,
+            };
+            ViewD::Scope(sid, d, Box::new(parse_view(t)?))
         }
         "susp" => ViewD::Susp(parse_expr(t)?, Box::new(parse_view(t)?)),
         "errb" => ViewD::Errb(parse_expr(t)?, Box::new(parse_view(t)?)),
@@ -204,13 +254,10 @@ pub fn show_view(v: &ViewD) -> String {
         ViewD::DynText(e) => format!("dt {}", show_expr(e)),
         ViewD::Either(c, a, b) => format!("ei {} {} {}", show_expr(c), show_view(a), show_view(b)),
         ViewD::Show(c, a, b) => format!("sh {} {} {}", show_expr(c), show_view(a), show_view(b)),
-        ViewD::For(sel, lists) => {
-            let ls: Vec<String> = lists
-                .iter()
-                .map(|l| if l.is_empty() { "-".into() } else { l.iter().map(|k| k.to_string()).collect::<Vec<_>>().join(",") })
-                .collect();
-            format!("for {} {} {}", show_expr(sel), lists.len(), ls.join(" "))
-        }
+        ViewD::For(sel, lists) => format!("for {} {}", show_expr(sel), show_lists(lists)),
+        ViewD::ForR(sel, lists, row) => format!("forr {} {} {}", show_expr(sel), show_lists(lists), show_view(row)),
+        ViewD::Scope(sid, LDef::Memo(b), kid) => format!("sc {sid} m {} {}", show_expr(b), show_view(kid)),
+        ViewD::Scope(sid, LDef::Sig(v), kid) => format!("sc {sid} s {v} {}", show_view(kid)),
         ViewD::Susp(e, a) => format!("susp {} {}", show_expr(e), show_view(a)),
         ViewD::Errb(e, a) => format!("errb {} {}", show_expr(e), show_view(a)),
     }
@@ -236,6 +283,8 @@ pub fn eval_pure(defs: &[Def], env: &[i64], e: &Expr) -> i64 {
         Expr::Ite(c, t, f) => {
             if eval_pure(defs, env, c) != 0 { eval_pure(defs, env, t) } else { eval_pure(defs, env, f) }
         }
+        // component-local state is not part of `env` (views that use it are outside the guard oracle)
+        Expr::Key | Expr::Loc(_) => 0,
     }
 }
 
@@ -260,6 +309,7 @@ pub fn static_reads(defs: &[Def], e: &Expr, out: &mut BTreeSet<usize>) {
             static_reads(defs, t, out);
             static_reads(defs, f, out)
         }
+        Expr::Key | Expr::Loc(_) => {}
     }
 }
 
@@ -276,6 +326,7 @@ pub fn reads_memo(defs: &[Def], e: &Expr) -> bool {
         Expr::Add(a, b) => reads_memo(defs, a) || reads_memo(defs, b),
         Expr::Mulc(_, a) => reads_memo(defs, a),
         Expr::Ite(c, t, f) => reads_memo(defs, c) || reads_memo(defs, t) || reads_memo(defs, f),
+        Expr::Key | Expr::Loc(_) => false,
     }
 }
 
@@ -318,6 +369,8 @@ fn struct_guards(defs: &[Def], env: &[i64], v: &ViewD, out: &mut Vec<Guard>) {
             struct_guards(defs, env, if eval_pure(defs, env, c) != 0 { a } else { b }, out)
         }
         ViewD::For(sel, _) => out.push(Guard::Reads(reads_of(defs, sel))),
+        // views with component-local state are outside the guard oracle (`is_x`)
+        ViewD::ForR(..) | ViewD::Scope(..) => {}
         ViewD::Susp(e, a) => {
             out.push(Guard::Reads(reads_of(defs, e)));
             struct_guards(defs, env, a, out)
@@ -379,7 +432,7 @@ pub fn ref_render(defs: &[Def], env: &[i64], v: &ViewD, path: &[Guard], out: &mu
             out.push(RefNode { kind: 'C', guards: p, kids: vec![] })
         }
         // implementation-only constructors are not covered by the untouched-nodes oracle
-        ViewD::Susp(..) | ViewD::Errb(..) => {}
+        ViewD::Susp(..) | ViewD::Errb(..) | ViewD::ForR(..) | ViewD::Scope(..) => {}
     }
 }
 
@@ -387,7 +440,17 @@ pub fn has_impl_only(v: &ViewD) -> bool {
     match v {
         ViewD::Susp(..) | ViewD::Errb(..) => true,
         ViewD::Text(_) | ViewD::Unit | ViewD::DynText(_) | ViewD::For(..) => false,
-        ViewD::Elem(_, _, k) => has_impl_only(k),
+        ViewD::Elem(_, _, k) | ViewD::ForR(_, _, k) | ViewD::Scope(_, _, k) => has_impl_only(k),
         ViewD::Seq(a, b) | ViewD::Either(_, a, b) | ViewD::Show(_, a, b) => has_impl_only(a) || has_impl_only(b),
+    }
+}
+
+/// the view uses component-local state or rows with content of their own
+pub fn is_x(v: &ViewD) -> bool {
+    match v {
+        ViewD::ForR(..) | ViewD::Scope(..) => true,
+        ViewD::Text(_) | ViewD::Unit | ViewD::DynText(_) | ViewD::For(..) => false,
+        ViewD::Elem(_, _, k) | ViewD::Susp(_, k) | ViewD::Errb(_, k) => is_x(k),
+        ViewD::Seq(a, b) | ViewD::Either(_, a, b) | ViewD::Show(_, a, b) => is_x(a) || is_x(b),
     }
 }
